@@ -14,6 +14,14 @@ package comp
 //   lupd <s> <items> <fpk> <fps> <fpe> <fdk> <fds> <fde>   FeatureLocal.UpdateData
 //   lcopy <s>                                        FeatureLocal.DataCopy, retained
 //   write <s> <items> <6 filter tokens>              write datagram of the bound peer, ack requested
+//                                                    optional last token <arr>: how the filter LIST of the command is
+//                                                    arranged, one letter per entry: p partial filter, d delete filter,
+//                                                    b entry with both cmdControl tags (partial data), P / D a further
+//                                                    partial / delete filter without data, o entry without cmdControl,
+//                                                    e entry with an empty cmdControl (default "dp"); `X|Y` on the final
+//                                                    write: the same write with arrangement Y on the same data must get
+//                                                    the same verdict and leave the same data (Cmd.ExtractFilter must
+//                                                    not depend on the order of the list)
 //   alt <k> ...                                      (only before the final write) twin stores, as in heap_run_test.go
 //   notify|reply <items> <6 filter tokens>           datagram of the remote server feature (store 3)
 //   rupd <persist> <items> <6 filter tokens>         FeatureRemote.UpdateData (what use-case code calls)
@@ -174,16 +182,44 @@ func (w *hpWorld) ok() bool {
 }
 
 // datagram with a list payload and filters, as a peer would send it
-func (w *hpWorld) dataDatagram(s *hpStore, cls model.CmdClassifierType, wr *hpWrite) (model.DatagramType, uint64) {
+// hpArrJudgeable: the SPEC can read the filter list without choosing between entries (at most one partial and one
+// delete filter, none with both tags, the write's own filters present)
+func hpArrJudgeable(arr string, wr *hpWrite) bool {
+	if strings.ContainsAny(arr, "PDb") || strings.Count(arr, "p") > 1 || strings.Count(arr, "d") > 1 {
+		return false
+	}
+	return (wr.fpk == "N" || strings.Contains(arr, "p")) && (wr.fdk == "N" || strings.Contains(arr, "d"))
+}
+
+func (w *hpWorld) dataDatagram(s *hpStore, cls model.CmdClassifierType, wr *hpWrite, arr string) (model.DatagramType, uint64) {
 	t := s.t
 	cmd := model.CmdType{}
 	reflect.ValueOf(&cmd).Elem().Field(t.cmdField).Set(reflect.ValueOf(t.encList(wr.items)))
 	var fl []model.FilterType
-	if f := t.filter(true, wr.fdk, wr.fds, wr.fde); f != nil {
-		fl = append(fl, *f)
-	}
-	if f := t.filter(false, wr.fpk, wr.fps, wr.fpe); f != nil {
-		fl = append(fl, *f)
+	for _, ch := range arr {
+		switch ch {
+		case 'p', 'b':
+			if f := t.filter(false, wr.fpk, wr.fps, wr.fpe); f != nil {
+				if ch == 'b' {
+					f.CmdControl.Delete = &model.ElementTagType{}
+				}
+				fl = append(fl, *f)
+			}
+		case 'd':
+			if f := t.filter(true, wr.fdk, wr.fds, wr.fde); f != nil {
+				fl = append(fl, *f)
+			}
+		case 'P':
+			fl = append(fl, model.FilterType{CmdControl: &model.CmdControlType{Partial: &model.ElementTagType{}}})
+		case 'D':
+			fl = append(fl, model.FilterType{CmdControl: &model.CmdControlType{Delete: &model.ElementTagType{}}})
+		case 'o':
+			fl = append(fl, model.FilterType{})
+		case 'e':
+			fl = append(fl, model.FilterType{CmdControl: &model.CmdControlType{}})
+		default:
+			panic("bad filter arrangement " + arr)
+		}
 	}
 	if len(fl) > 0 {
 		cmd.Filter = fl
@@ -233,7 +269,7 @@ func (w *hpWorld) history(r *h.Report, x *hpRun, ops []string) bool {
 	for i, s := range w.st {
 		empty := &hpWrite{persist: true, fpk: "N", fdk: "N"}
 		if s.remote {
-			dg, _ := w.dataDatagram(s, model.CmdClassifierTypeNotify, empty)
+			dg, _ := w.dataDatagram(s, model.CmdClassifierTypeNotify, empty, "dp")
 			w.send(dg)
 		} else {
 			s.lf.SetData(s.t.fn, s.t.encList(nil))
@@ -266,6 +302,7 @@ func (w *hpWorld) history(r *h.Report, x *hpRun, ops []string) bool {
 		}
 		var s *hpStore
 		var wr *hpWrite
+		arr, arr2 := "dp", ""
 		kind := f[0]
 		if strings.HasPrefix(kind, "uc") {
 			done = append(done, op)
@@ -286,8 +323,14 @@ func (w *hpWorld) history(r *h.Report, x *hpRun, ops []string) bool {
 		case "lset":
 			wr = &hpWrite{persist: true, items: hpParseList(f[2]), fpk: "N", fdk: "N"}
 		case "lupd", "write":
+			if kind == "write" && len(f) == 10 {
+				arr, f = f[9], f[:9]
+			}
 			wr = hpParseWrite(append([]string{"upd", h_itoa(kind == "write"), "1"}, f[2:]...))
 		case "notify", "reply":
+			if len(f) == 9 {
+				arr, f = f[8], f[:8]
+			}
 			wr = hpParseWrite(append([]string{"upd", "0", "1"}, f[1:]...))
 		case "rupd":
 			wr = hpParseWrite(append([]string{"upd", "0"}, f[1:]...))
@@ -350,7 +393,10 @@ func (w *hpWorld) history(r *h.Report, x *hpRun, ops []string) bool {
 			}
 		case "write", "notify", "reply":
 			cls := map[string]model.CmdClassifierType{"write": model.CmdClassifierTypeWrite, "notify": model.CmdClassifierTypeNotify, "reply": model.CmdClassifierTypeReply}[kind]
-			dg, ctr := w.dataDatagram(s, cls, wr)
+			if i := strings.Index(arr, "|"); i >= 0 {
+				arr, arr2 = arr[:i], arr[i+1:]
+			}
+			dg, ctr := w.dataDatagram(s, cls, wr, arr)
 			pan := w.send(dg)
 			h.Settle(w.base)
 			res := w.result(ctr)
@@ -373,7 +419,14 @@ func (w *hpWorld) history(r *h.Report, x *hpRun, ops []string) bool {
 			}
 		}
 		h.Settle(w.base)
-		want := strings.Fields(s.d.Ask(wr.line()))
+		mline := wr.line()
+		if arr != "dp" {
+			mline = "updl" + strings.TrimPrefix(mline, "upd")
+			mf := strings.Fields(mline)
+			mline = strings.Join(append(append(append([]string{}, mf[:4]...), arr), mf[4:]...), " ")
+		}
+		want := strings.Fields(s.d.Ask(mline))
+		judge := hpArrJudgeable(arr, wr)
 		r.Eval("w:"+kind+":"+t.shapeName(wr)+":"+hpVerdictS(v), "")
 		// a local update whose notification cannot be built panics after the data was updated
 		// (NotifyOrWriteCmdType with a delete selector / elements: the finding of C02/C08/C18)
@@ -390,9 +443,42 @@ func (w *hpWorld) history(r *h.Report, x *hpRun, ops []string) bool {
 					changed++
 				}
 			}
-			t.c11Handles(r, done, wr, s.hs)
-			t.c11Store(r, done, wr, before, after, v)
-			t.c04(r, done, wr, before, after, v)
+			if judge {
+				t.c11Handles(r, done, wr, s.hs)
+				t.c11Store(r, done, wr, before, after, v)
+				t.c04(r, done, wr, before, after, v)
+			} else {
+				// which entries of the list count is the implementation's choice: only the correspondence judges;
+				// retained values are re-based so that later steps are attributed to their own op
+				for _, hd := range s.hs {
+					hd.abs, hd.js = t.decAny(hd.val), hpJSON(hd.val)
+				}
+			}
+			// Cmd.ExtractFilter must not depend on the order of the filter list: the same write, the list arranged
+			// differently, on the same data
+			if kind == "write" && arr2 != "" && oi == len(ops)-2 && hpArrJudgeable(arr2, wr) {
+				s.lf.SetData(t.fn, t.encList(before))
+				dg, ctr := w.dataDatagram(s, model.CmdClassifierTypeWrite, wr, arr2)
+				pan := w.send(dg)
+				h.Settle(w.base)
+				res := w.result(ctr)
+				w.ev.take()
+				v2 := hpOK
+				if pan != nil {
+					v2 = hpPanic
+				} else if res != 0 {
+					v2 = hpErr
+				}
+				after2 := s.read()
+				r.Eval("w:order-twin:"+hpVerdictS(v)+"/"+hpVerdictS(v2), "")
+				if v2 != v || !hpEqList(after, after2) {
+					r.SpecFail("C04/filter-order-dependent", done, fmt.Sprintf("%s: the same write on %s with its filter list arranged %q is answered %s and leaves %s, arranged %q it is answered %s and leaves %s", t.fn, hpListS(before), arr, hpVerdictS(v), hpListS(after), arr2, hpVerdictS(v2), hpListS(after2)))
+				}
+				// put the world back to the state the model is in
+				s.lf.SetData(t.fn, t.encList(after))
+				s.d.Ask((&hpWrite{persist: true, items: after, fpk: "N", fdk: "N"}).line())
+				s.hs = nil
+			}
 		}
 		if hpVerdictS(v) != want[0] {
 			r.Mismatch(done, hpVerdictS(v), strings.Join(want, " "), fmt.Sprintf("world: verdict of %s (%s)", op, t.fn))
@@ -439,7 +525,7 @@ func (w *hpWorld) history(r *h.Report, x *hpRun, ops []string) bool {
 					continue
 				}
 				s.lf.SetData(t.fn, t.encList(s2))
-				dg, ctr := w.dataDatagram(s, model.CmdClassifierTypeWrite, wr)
+				dg, ctr := w.dataDatagram(s, model.CmdClassifierTypeWrite, wr, arr)
 				pan := w.send(dg)
 				h.Settle(w.base)
 				res := w.result(ctr)
@@ -559,6 +645,14 @@ func hpWorldCorpus(x *hpRun) [][]string {
 		{"world", "notify " + fl(L(c0, f1), "N", nil, "N", nil, nil), "rcopy", "notify " + fl(L(t.it(-1, -1, 2)), "F", t.selOf(0), "N", nil, nil),
 			"rcopy", "notify " + fl(L(t.it(-1, -1, 0)), "E", nil, "N", nil, nil), "rcopy", "notify " + fl(nil, "N", nil, "F", nil, t.elOf(v0)),
 			"rupd 0 " + fl(L(t.it(-1, -1, 1)), "N", nil, "N", nil, nil), "reply " + fl(L(t.it(2, 1, 2)), "E", nil, "N", nil, nil)},
+		// Cmd.ExtractFilter: partial filter BEFORE the delete filter, foreign entries anywhere - same outcome as [delete, partial]
+		{"world", "lset 0 " + hpListS(L(c0, t.it(1, 1, 2), c2)), "write 0 " + fl(L(t.it(1, -1, 0)), "E", nil, "F", t.selOf(0), nil) + " pd|dp"},
+		{"world", "lset 0 " + hpListS(L(c0, t.it(1, 1, 2), c2)), "write 0 " + fl(L(t.it(-1, -1, 0)), "F", t.selOf(2), "F", t.selOf(0), nil) + " opde|edpo"},
+		{"world", "notify " + fl(L(c0, t.it(1, 1, 2), c2), "N", nil, "N", nil, nil), "notify " + fl(L(t.it(1, -1, 0)), "E", nil, "F", t.selOf(0), nil) + " pd",
+			"reply " + fl(L(t.it(2, -1, 1)), "E", nil, "F", t.selOf(1), nil) + " pod"},
+		// lists with two filters of a kind / an entry with both tags: the model follows the code's choice (the last of a kind; both tags = partial)
+		{"world", "lset 0 " + hpListS(L(c0, t.it(1, 1, 2), c2)), "write 0 " + fl(L(t.it(-1, -1, 0)), "F", t.selOf(2), "F", t.selOf(0), nil) + " dpP",
+			"write 0 " + fl(L(t.it(-1, -1, 1)), "F", t.selOf(2), "F", t.selOf(1), nil) + " Ddp", "write 0 " + fl(L(t.it(2, -1, 0)), "E", nil, "F", t.selOf(1), nil) + " bd"},
 		// C11: a retained copy of the use-case data changes when a use-case helper runs later
 		{"world", "ucadd 0", "uccopy", "ucadd 1"},
 		{"world", "ucadd 0", "uccopy", "ucavail 0 0"},
@@ -566,9 +660,20 @@ func hpWorldCorpus(x *hpRun) [][]string {
 	}
 }
 
+var hpArrs = []string{"pd", "dp", "opd", "dpe", "pod", "epdo", "dop", "dpP", "Ppd", "dDp", "Dpd", "bd", "db", "pdb"}
+
 func hpWorldGen(g *hpGen, types []*hpType, n int) []string {
 	rng := g.rng
 	ops := []string{"world"}
+	arrOf := func() string {
+		if rng.Intn(2) == 0 {
+			return ""
+		}
+		if rng.Intn(4) > 0 {
+			return " " + hpArrs[rng.Intn(7)]
+		}
+		return " " + hpArrs[rng.Intn(len(hpArrs))]
+	}
 	tail := func(w *hpWrite) string {
 		return strings.TrimPrefix(w.line(), fmt.Sprintf("upd %d %d ", h.B2i(w.remote), h.B2i(w.persist)))
 	}
@@ -587,7 +692,7 @@ func hpWorldGen(g *hpGen, types []*hpType, n int) []string {
 				ops = append(ops, "notify "+tail(&hpWrite{items: g.list(4, 1, true), fpk: "N", fdk: "N"}))
 			case x < 8:
 				w := g.write()
-				ops = append(ops, []string{"notify ", "reply "}[rng.Intn(2)]+tail(w))
+				ops = append(ops, []string{"notify ", "reply "}[rng.Intn(2)]+tail(w)+arrOf())
 			default:
 				w := g.write()
 				ops = append(ops, fmt.Sprintf("rupd %d %s", rng.Intn(2), tail(w)))
@@ -603,7 +708,7 @@ func hpWorldGen(g *hpGen, types []*hpType, n int) []string {
 		case x < 6:
 			ops = append(ops, fmt.Sprintf("lupd %d %s", si, tail(g.write())))
 		default:
-			ops = append(ops, fmt.Sprintf("write %d %s", si, tail(g.write())))
+			ops = append(ops, fmt.Sprintf("write %d %s%s", si, tail(g.write()), arrOf()))
 		}
 	}
 	return ops
@@ -631,6 +736,25 @@ func hpWorldRun(r *h.Report, x *hpRun) {
 			s, wr := stores[rng.Intn(len(stores))], writes[rng.Intn(len(writes))]
 			tail := strings.TrimPrefix(wr.line(), "upd 1 1 ")
 			w.history(r, x, []string{"world", fmt.Sprintf("lset %d %s", si, hpListS(s)), "alt 0 1 2 3", fmt.Sprintf("write %d %s", si, tail)})
+		}
+	}
+	// commands that carry BOTH filters: every such write of the grid x stores x arrangements of the filter list,
+	// each compared with the same write arranged the other way round
+	pairs := []string{"pd|dp", "dp|pd", "opd|dpo", "pdo|odp", "epod|dope", "pod|dop"}
+	for si, ty := range ts {
+		stores := hpGridStores(ty)
+		for _, wr := range hpGridWrites(ty) {
+			if wr.fpk == "N" || wr.fdk == "N" {
+				continue
+			}
+			tail := strings.TrimPrefix(wr.line(), "upd 1 1 ")
+			for i := 0; i < h.Scale(12, 120); i++ {
+				s := stores[len(stores)-1-rng.Intn(216)] // three elements
+				if rng.Intn(2) == 0 {                    // all of them changeable: the write is accepted
+					s = [][]int{ty.it(0, 1, rng.Intn(2)), ty.it(1, 1, 1), ty.it(2, 1, rng.Intn(2))}
+				}
+				w.history(r, x, []string{"world", fmt.Sprintf("lset %d %s", si, hpListS(s)), fmt.Sprintf("write %d %s %s", si, tail, pairs[rng.Intn(len(pairs))])})
+			}
 		}
 	}
 	g := &hpGen{rng: rng}
